@@ -35,7 +35,7 @@ func (g *c16gen) expr(depth int) []string {
 		return []string{g.r.Pick([]string{`"("`, `")"`, `"[{"`, `"a ) b"`, `"\"("`, `"#{"`, `"»"`})}
 	case 3: // raw strings containing bracket characters
 		g.hist["rawstring-with-brackets"]++
-		return []string{g.r.Pick([]string{"¬(¬", "¬)¬", "¬]¬", "¬{\"a\":[1]}¬", "¬}¬", "¬a¬¬(¬"})}
+		return []string{g.r.Pick([]string{"¬(¬", "¬)¬", "¬]¬", "¬{\"a\":[1]}¬", "¬}¬", "¬a¬¬(¬", "¬¬", "¬¬¬¬", "\"\""})}
 	case 4:
 		return []string{g.r.Pick([]string{":k", ":a", "\"s\""})}
 	case 5: // reader macro
